@@ -20,6 +20,7 @@ import Mathlib.Tactic.NormNum
 import Mathlib.Tactic.Ring
 import Mathlib.Tactic.Linarith
 import Mathlib.Algebra.Order.Field.Rat
+import CBV.Gen.TC11
 
 namespace CBV.C11
 
